@@ -11,7 +11,7 @@ try:
     info = fw.regen(log)
     targets = [f[:-2] + ".vo" for f in fw.coq_project_files()]
     fw.coq_make(targets, log, timeout=7200)
-    for cfg in ("f64", "dec"):
+    for cfg in ("f64", "dec", "f64-serde", "dec-serde"):
         fw.build_harness(cfg, log, "dev", info)
     # warm the cargo caches the configuration checks (C19) use
     import os
